@@ -79,6 +79,12 @@ pub fn run_pages(sink: &mut Sink, st: &mut Streams, pages: &[Stack], tag: &str) 
     if let Some(c) = class {
         sink.count(&format!("class:{c}"));
     }
+    if pages.iter().any(class_len_bookkeeping) {
+        sink.count("regression:former-list_of_nullable_struct_repdef");
+    }
+    if pages.iter().any(class_allvalid_list) {
+        sink.count("regression:former-allvalid_list_over_nullable_items");
+    }
     // levels-only invariants (model independent): one rep/def entry per item or special
     if pages.len() == 1 {
         let (s, items) = &us[0];
